@@ -192,7 +192,7 @@ def primLine (parts : List String) : String :=
   | some e =>
     let kind := arg 2
     match kind with
-    | "hash" | "hmac" | "hkdf" =>
+    | "hash" | "hmac" | "hkdf" | "hmacseq" =>
       (match provides e "hash" (arg 3) with
        | none => "none"
        | some b0 =>
@@ -200,6 +200,13 @@ def primLine (parts : List String) : String :=
          let h := Real.hashImpl b (hashSel (arg 3))
          let S := Real.mkSuite (Real.dhImpl .toy 0) .toy (Real.cipherImpl .toy 0) h
          if kind == "hash" then s!"ok {hex (h.hash (unhex (arg 4)))}"
+         else if kind == "hmacseq" then
+           -- several HMACs on ONE hash object of the implementation: the function has no memory
+           let outs := ((arg 4).splitOn ",").map fun kd =>
+             match kd.splitOn ":" with
+             | [k, d] => hex (hmac S (unhex k) (unhex d))
+             | _ => "?"
+           "ok " ++ ",".intercalate outs
          else if kind == "hmac" then s!"ok {hex (hmac S (unhex (arg 4)) (unhex (arg 5)))}"
          else
            let n := (arg 6).toNat!
